@@ -477,7 +477,7 @@ func refCounts(stream []byte) (map[int]int, map[uint32]int, error) {
 				// process differ whatever the options are (listed finding of C08/C18), so such files say nothing here
 				return nil, nil, errOutsideModel
 			}
-			if _, ok := pr.fields[g][fd.Num]; !ok && fd.Num != 253 {
+			if _, ok := pr.fields[g][fd.Num]; !ok {
 				if seen[fd.Num] {
 					return nil, nil, errOutsideModel // the same unlisted number twice in one definition
 				}
